@@ -13,7 +13,7 @@
 (*     in and out of range) as a GEN line with the outcome class the configuration alone fixes; the check combines    *)
 (*     them with content classes and replays them on the real writers.                                               *)
 EXTENDS EncTotality, Json
-CONSTANTS Mode, Groups, Returns
+CONSTANTS Mode, Groups, Returns, Lite
 RD == INSTANCE Render
 VARIABLES pc, cs, ob
 vars == <<pc, cs, ob>>
@@ -87,7 +87,7 @@ Own(wr) ==
     [] wr = "C128" -> {CT(<<65, 66, 49, 50>>, 4), CT(<<49, 50>>, 6), CT(<<49, 50>>, 5), CT(<<97, 1>>, 2), CT(<<65>>, 80), CT(<<65>>, 81)}
     [] wr = "ITF" -> {CT(<<49, 50>>, 4), CT(<<49, 50>>, 3), CT(<<49, 50>>, 80), CT(<<49, 50>>, 82)}
     [] wr = "CBAR" -> {CT(<<49, 50, 51>>, 3), CT(<<65, 49, 50, 66>>, 4), CT(<<49, 58, 50>>, 3), CT(<<90>>, 1)}
-Contents(wr) == Common \cup Own(wr)
+Contents(wr) == (IF Lite THEN {CT(<<>>, 0), CT(<<65>>, 4000), CT(<<227, 129, 130>>, 3)} ELSE Common) \cup Own(wr)
 \* a symbol the contract admits for the call (0x0: none); Data Matrix: the smallest admitted size that holds the lower bound
 RefSymbol(c) ==
   LET wr == c.wr IN
